@@ -224,11 +224,7 @@ Section Pass.
           eapply AgreeOn_Outside; [|exact L3|exact Ac]. apply DJ; lia.
       + intros t Ht1 Ht2. eapply AgreeOn_Outside; [|exact L3|apply S2; lia]. apply DJ; lia.
       + eapply Outside_trans; [exact S3|]. eapply Outside_weaken; [|exact L3]. intros j Fj. exact (AnyF_of i j Hin Fj).
-      + destruct (lw + N.of_nat i * cs <? lwall); [|exact S4].
-        destruct S6 as [E6|[t [c [pa [Ht [Fc E6]]]]]]; [|].
-        * (* the new value is below the old one, which is <= M64 *)
-          destruct (N.ltb_spec (lw + N.of_nat i * cs) lwall); lia.
-        * destruct (N.ltb_spec (lw + N.of_nat i * cs) lwall); lia.
+      + destruct (N.ltb_spec (lw + N.of_nat i * cs) lwall); [lia|exact S4].
       + intros t c pa Ht Fc. destruct (Nat.eq_dec t i) as [->|Hne].
         * destruct (Final_unique i c pa c' _ Fc HF) as [-> _]. rewrite Hlw, Hrw. unfold off.
           destruct (N.ltb_spec (lw + N.of_nat i * cs) lwall); destruct (N.ltb_spec rwall (rw + N.of_nat i * cs)); lia.
@@ -338,7 +334,7 @@ Section Pass.
     AllDone (run (ginit a0) sched) /\ SameArr V (s_a (run (ginit a0) sched)) afin /\ l' = l /\ r' = r.
   Proof.
     intros sched afin l r l' r' EP Hnt ER. destruct (mach_inv sched) as [_ [HW HP]].
-    destruct (parent_returned V gs _ l' r' HW HP ER) as [HD [E1 E2]].
+    destruct (parent_returned V lockf gs _ l' r' HW HP ER) as [HD [E1 E2]].
     destruct (interleaving_independent sched afin l r EP Hnt HD) as [SA [F1 F2]].
     split; [exact HD|]. split; [exact SA|]. split; congruence.
   Qed.
